@@ -255,6 +255,9 @@ func (a *Analyzer) builtin(fr *frame, site ssa.Instruction, b *ssa.Builtin, c *s
 		if v, ok := args[1].(*Slice); ok {
 			nb.From2 = v
 		}
+		if a.OnAppend != nil {
+			a.OnAppend(fr.fn, site, st, s, args[1])
+		}
 		return one(&Slice{Base: nb, Off: Const(0), Len: s.Len.Add(add)})
 	case "copy":
 		d := a.sliceOf(st, args[0], c.Args[0].Type())
@@ -854,7 +857,6 @@ func (a *Analyzer) invokeUnknown(fr *frame, site ssa.Instruction, c *ssa.CallCom
 	}
 	return outs, true
 }
-
 
 // mergeErrs adds the sentinel provenance of error value e to u.
 func (a *Analyzer) mergeErrs(u *Unknown, e Term) {
